@@ -106,6 +106,22 @@ def ipPut (readable : List Key) (response : Option Obj) : PutResult :=
         | _, _, _ => acc
       | _ => acc) ⟨readable, []⟩
 
+/-! ## The HTTP layer in front of the IP write: `request()` raises for 4xx, `put_json` returns `{}` for 204 only and
+otherwise parses the body - whatever the status line says -/
+
+inductive HttpPut
+  | failed                      -- the call raises (HttpErrorResponse for 4xx; a body that is not a JSON object)
+  | result (r : PutResult)
+  deriving Repr
+
+/-- `IpPairing.put_characteristics` seen from the wire: status code and parsed body (`none` = no JSON object) -/
+def ipPutHttp (readable : List Key) (code : Nat) (body : Option Obj) : HttpPut :=
+  if 400 ≤ code ∧ code ≤ 499 then .failed
+  else if code = 204 then .result (ipPut readable none)
+  else match body with
+    | none => .failed
+    | some resp => .result (ipPut readable (some resp))
+
 /-! ## CoAP write: per-item PDU results (0 = success) in request order -/
 
 def coapPut (requested : List (Key × Bool)) (results : List Nat) : PutResult :=
